@@ -40,12 +40,25 @@ pub fn mandated_refusal(d: &Val) -> Option<&'static str> {
     if d.any(|v| matches!(v, Val::Int(i) if *i > i64::MAX as i128 || *i < i64::MIN as i128)) {
         return Some("integer outside i64");
     }
+    // TOML has no binary type: whatever xt wrote for it could not read back as the input value
+    if d.any(|v| matches!(v, Val::Bytes(_))) {
+        return Some("binary data (no TOML document reads back as it)");
+    }
     None
 }
 
-/// Documents for which either outcome is allowed (non-string keys, binary, ...).
+fn without_datetimes(v: &Val) -> Val {
+    match v {
+        Val::Datetime(d) => Val::Str(d.clone()),
+        Val::Seq(x) => Val::Seq(x.iter().map(without_datetimes).collect()),
+        Val::Map(m) => Val::Map(m.iter().map(|(k, v)| (k.clone(), without_datetimes(v))).collect()),
+        o => o.clone(),
+    }
+}
+
+/// Documents for which either outcome is allowed (non-string keys, float32, ext, non-finite floats).
 pub fn free_outcome(d: &Val) -> bool {
-    d.any(|v| matches!(v, Val::Bytes(_) | Val::F32(_) | Val::Ext(..))) || d.any(|v| matches!(v, Val::Map(m) if m.iter().any(|(k, _)| !matches!(k, Val::Str(_))))) || d.any(|v| matches!(v, Val::Float(b) if !f64::from_bits(*b).is_finite()))
+    d.any(|v| matches!(v, Val::F32(_) | Val::Ext(..))) || d.any(|v| matches!(v, Val::Map(m) if m.iter().any(|(k, _)| !matches!(k, Val::Str(_))))) || d.any(|v| matches!(v, Val::Float(b) if !f64::from_bits(*b).is_finite()))
 }
 
 fn plant(v: &mut Val, what: &Val, rng: &mut Rng, as_key: bool) {
@@ -119,6 +132,13 @@ pub fn gen_docspec(rng: &mut Rng, cl: &mut Classes) -> DocSpec {
             plant(&mut d, &Val::Bytes(rng.bytes(n)), rng, false);
             DocSpec { val: d, kind: "planted_binary" }
         }
+        6 => {
+            // TOML's own date-time values (only a TOML source can spell them): representable, must read back
+            let mut d = gen_doc(rng, &o, cl);
+            let dt = *rng.pick(&["1979-05-27T07:32:00Z", "1979-05-27T00:32:00-07:00", "1979-05-27T07:32:00.999999", "1979-05-27", "07:32:00"]);
+            plant(&mut d, &Val::Datetime(dt.to_string()), rng, false);
+            DocSpec { val: d, kind: "planted_datetime" }
+        }
         _ => DocSpec { val: gen_doc(rng, &o, cl), kind: "representable" },
     }
 }
@@ -127,8 +147,8 @@ fn can_spell(f: Fmt, v: &Val) -> bool {
     match f {
         Fmt::Json => v.is_common(),
         Fmt::Yaml => !v.any(|x| matches!(x, Val::Bytes(_) | Val::F32(_) | Val::Ext(..) | Val::Datetime(_))),
-        Fmt::Msgpack => true,
-        Fmt::Toml => v.toml_ok(),
+        Fmt::Msgpack => !v.any(|x| matches!(x, Val::Datetime(_))),
+        Fmt::Toml => without_datetimes(v).toml_ok(),
     }
 }
 
@@ -147,6 +167,14 @@ pub fn gen_history(seed: u64, idx: usize, cl: &mut Classes) -> History {
     for _ in 0..n_calls {
         let k = *rng.pick(&[0usize, 1, 1, 1, 1, 2, 3]);
         let mut ds: Vec<DocSpec> = (0..k).map(|_| gen_docspec(&mut rng, cl)).collect();
+        if k != 1 {
+            // date-times need a TOML source, which holds exactly one document
+            for d in ds.iter_mut() {
+                if d.kind == "planted_datetime" {
+                    *d = DocSpec { val: without_datetimes(&d.val), kind: "representable" };
+                }
+            }
+        }
         // pick a source format that can spell every document of the call
         let mut cands: Vec<Fmt> = [Fmt::Json, Fmt::Msgpack, Fmt::Yaml].into_iter().filter(|f| ds.iter().all(|d| can_spell(*f, &d.val))).collect();
         if k == 1 && can_spell(Fmt::Toml, &ds[0].val) {
